@@ -116,7 +116,16 @@ pub fn build_subjects(ctx: &Ctx, thorough: bool, max_programs: usize) -> Vec<Sub
         let (pi, ci) = jobs[k];
         let (prog, ivs) = &progs[pi];
         let (cname, cfg) = &cfgs[ci];
-        // in quick tier, qdf7 is covered only through the dedicated S1 subject below
+        make_subject(ctx, prog, ivs, cname, cfg, if thorough { ivs.len() } else { 1 })
+    });
+    built.into_iter().flatten().collect()
+}
+
+/// Builds one subject: the circuit, its satisfaction context, and the honest assignment of every
+/// target for the first `n_inputs` base inputs.
+pub fn make_subject(ctx: &Ctx, prog: &Program, ivs: &[Vec<u64>], cname: &str, cfg: &CircuitConfig, n_inputs: usize) -> Option<Subject> {
+    {
+        {
         let b = guarded(|| build_program::<PC>(prog, cfg));
         let built = match b {
             Ok(b) => b,
@@ -133,7 +142,6 @@ pub fn build_subjects(ctx: &Ctx, thorough: bool, max_programs: usize) -> Vec<Sub
         let identity: Vec<usize> = (0..n).collect();
         let unset = prover_written_cells(&built.data);
         let mut bases = Vec::new();
-        let n_inputs = if thorough { ivs.len() } else { 1 };
         for (i, iv) in ivs.iter().take(n_inputs).enumerate() {
             if prog.eval(iv).is_none() {
                 ctx.machinery_error(format!("subject {} base input {:?} does not satisfy the program", prog.name, iv));
@@ -147,9 +155,20 @@ pub fn build_subjects(ctx: &Ctx, thorough: bool, max_programs: usize) -> Vec<Sub
                 Err(e) => ctx.machinery_error(format!("subject {} base input {:?}: witness generation failed: {e}", prog.name, iv)),
             }
         }
-        Some(Subject { name: prog.name.clone(), cfg_name: cname.clone(), prog: prog.clone(), built, sc, identity, unset, bases })
-    });
-    built.into_iter().flatten().collect()
+        Some(Subject { name: prog.name.clone(), cfg_name: cname.to_string(), prog: prog.clone(), built, sc, identity, unset, bases })
+        }
+    }
+}
+
+/// The proof (if any) the real prover emits for one corruption under one strategy.
+pub fn prove_case(s: &Subject, base: &[F], corr: &Corr, st: Strat, seed: u64) -> Result<plonky2::plonk::proof::ProofWithPublicInputs<F, PC, D>, String> {
+    let Some(values) = apply_corr(s, base, corr) else { return Err("identity-corruption".into()) };
+    knobs::set(knobs_for(st));
+    plonky2_field::verif_hooks::set_seed(Some(seed));
+    let proof = prove_identity(&s.built.data, &values, &s.unset, &s.identity);
+    plonky2_field::verif_hooks::set_seed(None);
+    knobs::reset();
+    proof
 }
 
 #[derive(Clone, Debug)]
@@ -214,7 +233,7 @@ pub fn apply_corr(s: &Subject, base: &[F], c: &Corr) -> Option<Vec<F>> {
     Some(v)
 }
 
-fn knobs_for(st: Strat) -> Knobs {
+pub fn knobs_for(st: Strat) -> Knobs {
     let mut k = Knobs::default();
     match st {
         Strat::S0 => {}
